@@ -135,7 +135,7 @@ func Changes(cmd CommandRunner, baseBranch string, filter PathFilter) ([]*FileCh
 			change.Commits = append(change.Commits, prev.Commits...)
 			change.Path.Before = prev.Path.Before
 			// Remove any changes for "BEFORE" path we might already have
-			changes = changesWithout(changes, srcPath)
+			changes = changesWithout(changes, prev)
 		} else {
 			slog.Debug("No previous change found")
 			switch change.Status {
@@ -246,14 +246,17 @@ func Changes(cmd CommandRunner, baseBranch string, filter PathFilter) ([]*FileCh
 	return changes, nil
 }
 
-func changesWithout(changes []*FileChange, fpath string) []*FileChange {
+func changesWithout(changes []*FileChange, prev *FileChange) []*FileChange {
 	return slices.DeleteFunc(changes, func(e *FileChange) bool {
-		return e.Path.After.Name == fpath
+		return e == prev
 	})
 }
 
+// getChangeByPath returns the most recent change that left a file at fpath.
+// A path can be the target of more than one change, for example when a file
+// is deleted and another one is later renamed to the same path.
 func getChangeByPath(changes []*FileChange, fpath string) *FileChange {
-	for _, c := range changes {
+	for _, c := range slices.Backward(changes) {
 		if c.Path.After.Name == fpath {
 			return c
 		}
